@@ -12,6 +12,7 @@ var loadPkgs = []string{
 	galaxy + "pkg/ipam/floatingip",
 	galaxy + "pkg/ipam/schedulerplugin",
 	galaxy + "pkg/ipam/crd",
+	galaxy + "pkg/ipam/api", // REST controllers: entry points of their own, sharing listers and the ipam with the plugin
 	galaxy + "pkg/galaxy",
 	galaxy + "pkg/api/cniutil",
 	galaxy + "pkg/network/portmapping",
@@ -98,6 +99,8 @@ var entries = []entryCfg{
 		extra: []string{"resyncPod", "syncPodIPsIntoDB", "updateConfigMap", "unbind", "loop", "getNodeSubnet", "queryNodeSubnet"}},
 	{pkg: galaxy + "pkg/ipam/schedulerplugin", typ: "crdKey", exported: true},
 	{pkg: galaxy + "pkg/ipam/crd", typ: "crdCache", exported: true},
+	{pkg: galaxy + "pkg/ipam/api", typ: "PoolController", exported: true},
+	{pkg: galaxy + "pkg/ipam/api", typ: "Controller", exported: true},
 	{pkg: galaxy + "pkg/galaxy", typ: "Galaxy", exported: false, extra: []string{"cni", "requestFunc", "cleanIPtables"},
 		initOnly: []string{"Init"}},
 	{pkg: galaxy + "pkg/network/portmapping", typ: "PortMappingHandler", exported: true},
